@@ -119,6 +119,15 @@ fn gen(rng: &mut Rng, tier: Tier) -> Vec<Case> {
         out.push(Case::new(if small { "boundary" } else { "random" }, enc(&C { xs, qs })));
     }
     if tier == Tier::Thorough {
+        // a LONG-LIVED index: 1100-1500 queries answered by one object (anything that adapts itself to the queries it has seen
+        // — statistics, self-tuning, lazily built side tables — has changed by then); one long region over many short ones
+        for k in 0..2u64 {
+            let mut xs: Vec<Rec> = vec![Rec::new("chr1", 0, 5000)];
+            for i in 0..40u64 { xs.push(Rec::new("chr1", 100 * i + 10, 100 * i + 10 + rng.range(1, 30))); }
+            if k == 1 { xs.push(Rec::new("chr2", 5, 50)); rng.shuffle(&mut xs); }
+            let qs: Vec<Rec> = (0..rng.range(1100, 1500)).map(|_| { let s = rng.below(5200); Rec::new("chr1", s, s + rng.range(1, 8)) }).collect();
+            out.push(Case::new("long-lived", enc(&C { xs, qs })));
+        }
         // LARGE region sets: more than 2^16 regions (a 16-bit position, a block-wise build), on one, two or 300 chromosomes;
         // the driver evaluates only the spec on these (array-based), not the quadratic model
         for (n, nch) in [(9_000usize, 2usize), (70_000, 1), (66_000, 300)] {
